@@ -187,8 +187,10 @@ class Gen:
             methods, attrs = r.sample(touch, r.randrange(1, 6)), []
         else:
             methods, attrs = r.sample(touch, r.randrange(0, 4)), r.sample(touch, r.randrange(1, 6))
-        return {"__class__": "Pyro5.client.Proxy",
-                "state": [r.choice([LOOP_URI, UNIX_URI]), [], methods, attrs, "hello", None]}
+        state = [r.choice([LOOP_URI, UNIX_URI]), [], methods, attrs, "hello", None]
+        if r.random() < 0.2:        # members beyond the six that __setstate__ reads
+            state += r.choice([["x"], [None], [1, 2], [["m"], {"k": 1}], [{"__class__": "os.system"}]])
+        return {"__class__": "Pyro5.client.Proxy", "state": state}
 
     def good_instance_dict(self, depth=0):
         """a well-formed class dict of the closed set (to be placed where another class dict consumes it); its own members may
@@ -307,9 +309,13 @@ class Gen:
                              [LOOP_URI, [], [], [], {"h": 1}, "json"],
                              (UNIX_URI, (), (), (), None, "serpent"),
                              [LOOP_URI, "ab", "", ("x",), [1, 2], 5]])
-        if k < 0.55:
+        if k < 0.48:
             good = [LOOP_URI, ["ow"], ["m"], ["a"], "hello", None]
             return good[:r.randrange(0, 6)]
+        if k < 0.55:                # longer than the six members __setstate__ reads (empty and non-empty member lists)
+            good = r.choice([[LOOP_URI, [], [], [], "hello", None], [LOOP_URI, ["ow"], ["m"], ["a"], "hello", None]])
+            extra = [r.choice(["x", None, 7, ["l"], {"k": "v"}, True]) for _ in range(r.choice([1, 1, 2, 5]))]
+            return r.choice([good + extra, tuple(good + extra)])
         if k < 0.75:
             st = [LOOP_URI, [], ["m"], [], "hello", None]
             i = r.randrange(0, 4)
@@ -478,13 +484,67 @@ def _adapt(R, ser, v, br=True):
     return v
 
 
+def _escape_strings(text, rng, mode, json_style):
+    """the same document with characters inside its string literals written as escapes (\\uXXXX in JSON, \\xNN in a Python
+    literal): an equivalent encoding that no dumps() produces.  mode: "us" = underscores only, "some" = one in five, "all"."""
+    out = []
+    i, n = 0, len(text)
+    quote = None
+    while i < n:
+        c = text[i]
+        if quote is None:
+            out.append(c)
+            if c == '"' or (c == "'" and not json_style):
+                quote = c
+            i += 1
+            continue
+        if c == "\\":
+            nxt = text[i + 1] if i + 1 < n else ""
+            k = {"x": 4, "u": 6, "U": 10}.get(nxt, 2)
+            if json_style and nxt != "u":
+                k = 2
+            out.append(text[i:i + k])
+            i += k
+            continue
+        if c == quote:
+            quote = None
+            out.append(c)
+            i += 1
+            continue
+        ok = (ord(c) < 0x10000 and ord(c) >= 0x20) if json_style else (c.isascii() and (c.isalnum() or c in "_.:@ "))
+        pick = ok and (c == "_" if mode == "us" else (rng.random() < 0.2 if mode == "some" else True))
+        out.append((("\\u%04x" if json_style else "\\x%02x") % ord(c)) if pick else c)
+        i += 1
+    return "".join(out)
+
+
+def alt_encoding(R, ser, data, rng):
+    """an equivalent encoding of the same document that the codec accepts but its dumps never emits"""
+    mode = rng.choice(["us", "us", "some", "all"])
+    if ser == "json":
+        return _escape_strings(data.decode("utf-8"), rng, mode, True).encode("utf-8")
+    if ser == "serpent":
+        return _escape_strings(data.decode("utf-8"), rng, mode, False).encode("utf-8")
+    if ser == "msgpack":
+        # non-minimal string headers (str8 / str16 / str32 instead of fixstr) for the member names the decoder looks for
+        for key in (b"__class__", b"__exception__", b"state", b"args"):
+            hdr = rng.choice([b"\xd9" + bytes([len(key)]), b"\xda" + len(key).to_bytes(2, "big"), b"\xdb" + len(key).to_bytes(4, "big")])
+            data = data.replace(bytes([0xa0 + len(key)]) + key, hdr + key)
+        return data
+    return data
+
+
 def encode(R, ser, payload, rng=None):
     br = (rng.random() < 0.7) if rng else True
     p = _adapt(R, ser, payload, br)
     if ser == "serpent":
-        return R.serpent.dumps(p, bytes_repr=br)
-    if ser == "json":
-        return json.dumps(p, ensure_ascii=False).encode("utf-8")
-    if ser == "marshal":
-        return marshal.dumps(p)
-    return R.msgpack.packb(p, use_bin_type=True)
+        data = R.serpent.dumps(p, bytes_repr=br)
+    elif ser == "json":
+        data = json.dumps(p, ensure_ascii=False).encode("utf-8")
+    elif ser == "marshal":
+        data = marshal.dumps(p)
+    else:
+        data = R.msgpack.packb(p, use_bin_type=True)
+    if rng is not None and ser != "marshal" and rng.random() < 0.12:
+        data = alt_encoding(R, ser, data, rng)
+    return data
